@@ -196,3 +196,180 @@ Theorem C17_gen_rmq_correct :
 Proof. exact @gen_rmq_correct. Qed.
 Print Assumptions C17_gen_rmq_correct.
 
+
+(** * Tie to the source by translation (utils/trees.py: _euler_tour and class LowestCommonAncestor)
+
+    [Gen/LcaGen.v] is regenerated on every run (translator/pyfun.py, translator/lca_gen.py); it reuses the generated
+    range-minimum structure [Gen/RmqGen.v].  Nodes carry an identifier (object identity); [pth root i] is the root path of
+    the node with identifier [i] (an invalid path for a node that is not in the tree).  For every tree with pairwise distinct
+    identifiers the generated constructor, query and the five ancestry methods equal the hand-written model, error cases
+    included; the tuple comparison never orders two nodes. *)
+
+From SR Require Import Gen.LcaGen Proofs.LcaGenProofs.
+
+Theorem C17_gen_euler_tour_eq :
+  forall (node_id : Type) (node_id_eqb : node_id -> node_id -> bool),
+       (forall a b : node_id, node_id_eqb a b = true <-> a = b) ->
+       forall root : G.TreeNode node_id,
+       NoDup (ids root) ->
+       exists l : list (N * G.TreeNode node_id),
+         G.gen__euler_tour root 0 = G.Ok l /\ map (enc node_id_eqb root) l = tour 0 [] (shape root).
+Proof. exact @gen_euler_tour_eq. Qed.
+Print Assumptions C17_gen_euler_tour_eq.
+
+Theorem C17_gen_lca_init_eq :
+  forall (node_id : Type) (node_id_eqb node_ltb : node_id -> node_id -> bool),
+       (forall a b : node_id, node_id_eqb a b = true <-> a = b) ->
+       forall root : G.TreeNode node_id,
+       NoDup (ids root) ->
+       exists (gs : G.lca_state node_id) (L : lca),
+         G.gen_lca_init node_id_eqb node_ltb root = G.Ok gs /\
+         make (shape root) = Some L /\ state_rel node_id_eqb root gs L.
+Proof. exact @gen_lca_init_eq. Qed.
+Print Assumptions C17_gen_lca_init_eq.
+
+Theorem C17_gen_lca_call_eq :
+  forall (node_id : Type) (node_id_eqb node_ltb : node_id -> node_id -> bool),
+       (forall a b : node_id, node_id_eqb a b = true <-> a = b) ->
+       forall (root : G.TreeNode node_id) (gs : G.lca_state node_id) (L : lca),
+       NoDup (ids root) ->
+       G.gen_lca_init node_id_eqb node_ltb root = G.Ok gs ->
+       make (shape root) = Some L ->
+       forall nodes : list (G.TreeNode node_id),
+       res_val (fun n : G.TreeNode node_id => pth node_id_eqb root (G.TreeNode_id n))
+         (G.gen_lca_call node_id_eqb node_ltb gs nodes) =
+       lca_query L
+         (map (fun n : G.TreeNode node_id => pth node_id_eqb root (G.TreeNode_id n)) nodes) /\
+       unchanged gs (G.gen_lca_call node_id_eqb node_ltb gs nodes).
+Proof. exact @gen_lca_call_eq. Qed.
+Print Assumptions C17_gen_lca_call_eq.
+
+Theorem C17_gen_is_ancestor_eq :
+  forall (node_id : Type) (node_id_eqb node_ltb : node_id -> node_id -> bool),
+       (forall a b : node_id, node_id_eqb a b = true <-> a = b) ->
+       forall (root : G.TreeNode node_id) (gs : G.lca_state node_id) (L : lca),
+       NoDup (ids root) ->
+       G.gen_lca_init node_id_eqb node_ltb root = G.Ok gs ->
+       make (shape root) = Some L ->
+       forall a b : G.TreeNode node_id,
+       res_val (fun x : bool => x) (G.gen_lca_is_ancestor_of node_id_eqb node_ltb gs a b) =
+       is_ancestor_of L (pth node_id_eqb root (G.TreeNode_id a))
+         (pth node_id_eqb root (G.TreeNode_id b)) /\
+       unchanged gs (G.gen_lca_is_ancestor_of node_id_eqb node_ltb gs a b).
+Proof. exact @gen_is_ancestor_eq. Qed.
+Print Assumptions C17_gen_is_ancestor_eq.
+
+Theorem C17_gen_is_strict_ancestor_eq :
+  forall (node_id : Type) (node_id_eqb node_ltb : node_id -> node_id -> bool),
+       (forall a b : node_id, node_id_eqb a b = true <-> a = b) ->
+       forall (root : G.TreeNode node_id) (gs : G.lca_state node_id) (L : lca),
+       NoDup (ids root) ->
+       G.gen_lca_init node_id_eqb node_ltb root = G.Ok gs ->
+       make (shape root) = Some L ->
+       forall a b : G.TreeNode node_id,
+       res_val (fun x : bool => x) (G.gen_lca_is_strict_ancestor_of node_id_eqb node_ltb gs a b) =
+       is_strict_ancestor_of L (pth node_id_eqb root (G.TreeNode_id a))
+         (pth node_id_eqb root (G.TreeNode_id b)) /\
+       unchanged gs (G.gen_lca_is_strict_ancestor_of node_id_eqb node_ltb gs a b).
+Proof. exact @gen_is_strict_ancestor_eq. Qed.
+Print Assumptions C17_gen_is_strict_ancestor_eq.
+
+Theorem C17_gen_is_comparable_eq :
+  forall (node_id : Type) (node_id_eqb node_ltb : node_id -> node_id -> bool),
+       (forall a b : node_id, node_id_eqb a b = true <-> a = b) ->
+       forall (root : G.TreeNode node_id) (gs : G.lca_state node_id) (L : lca),
+       NoDup (ids root) ->
+       G.gen_lca_init node_id_eqb node_ltb root = G.Ok gs ->
+       make (shape root) = Some L ->
+       forall a b : G.TreeNode node_id,
+       res_val (fun x : bool => x) (G.gen_lca_is_comparable node_id_eqb node_ltb gs a b) =
+       is_comparable L (pth node_id_eqb root (G.TreeNode_id a))
+         (pth node_id_eqb root (G.TreeNode_id b)) /\
+       unchanged gs (G.gen_lca_is_comparable node_id_eqb node_ltb gs a b).
+Proof. exact @gen_is_comparable_eq. Qed.
+Print Assumptions C17_gen_is_comparable_eq.
+
+Theorem C17_gen_level_eq :
+  forall (node_id : Type) (node_id_eqb node_ltb : node_id -> node_id -> bool),
+       (forall a b : node_id, node_id_eqb a b = true <-> a = b) ->
+       forall (root : G.TreeNode node_id) (gs : G.lca_state node_id) (L : lca),
+       NoDup (ids root) ->
+       G.gen_lca_init node_id_eqb node_ltb root = G.Ok gs ->
+       make (shape root) = Some L ->
+       forall a : G.TreeNode node_id,
+       res_val N.to_nat (G.gen_lca_level node_id_eqb gs a) =
+       level L (pth node_id_eqb root (G.TreeNode_id a)) /\
+       unchanged gs (G.gen_lca_level node_id_eqb gs a).
+Proof. exact @gen_level_eq. Qed.
+Print Assumptions C17_gen_level_eq.
+
+Theorem C17_gen_distance_eq :
+  forall (node_id : Type) (node_id_eqb node_ltb : node_id -> node_id -> bool),
+       (forall a b : node_id, node_id_eqb a b = true <-> a = b) ->
+       forall (root : G.TreeNode node_id) (gs : G.lca_state node_id) (L : lca),
+       NoDup (ids root) ->
+       G.gen_lca_init node_id_eqb node_ltb root = G.Ok gs ->
+       make (shape root) = Some L ->
+       forall a b : G.TreeNode node_id,
+       res_val (fun z : Z => z) (G.gen_lca_distance node_id_eqb node_ltb gs a b) =
+       distance L (pth node_id_eqb root (G.TreeNode_id a)) (pth node_id_eqb root (G.TreeNode_id b)) /\
+       unchanged gs (G.gen_lca_distance node_id_eqb node_ltb gs a b).
+Proof. exact @gen_distance_eq. Qed.
+Print Assumptions C17_gen_distance_eq.
+
+Theorem C17_gen_lca_call_errors :
+  forall (node_id : Type) (node_id_eqb node_ltb : node_id -> node_id -> bool),
+       (forall a b : node_id, node_id_eqb a b = true <-> a = b) ->
+       forall (root : G.TreeNode node_id) (gs : G.lca_state node_id) (L : lca),
+       NoDup (ids root) ->
+       G.gen_lca_init node_id_eqb node_ltb root = G.Ok gs ->
+       make (shape root) = Some L ->
+       forall (nodes : list (G.TreeNode node_id)) (err : G.err),
+       G.gen_lca_call node_id_eqb node_ltb gs nodes = G.Err err ->
+       nodes = [] /\ err = G.TypeError \/ nodes <> [] /\ err = G.KeyError.
+Proof. exact @gen_lca_call_errors. Qed.
+Print Assumptions C17_gen_lca_call_errors.
+
+Theorem C17_gen_lca_call_lcp :
+  forall (node_id : Type) (node_id_eqb node_ltb : node_id -> node_id -> bool),
+       (forall a b : node_id, node_id_eqb a b = true <-> a = b) ->
+       forall (root : G.TreeNode node_id) (gs : G.lca_state node_id) (L : lca),
+       NoDup (ids root) ->
+       G.gen_lca_init node_id_eqb node_ltb root = G.Ok gs ->
+       make (shape root) = Some L ->
+       forall (n0 : G.TreeNode node_id) (p0 : path) (ns : list (G.TreeNode node_id))
+         (ps : list path),
+       sub root p0 = Some n0 ->
+       Forall2 (fun (nd : G.TreeNode node_id) (p : path) => sub root p = Some nd) ns ps ->
+       exists (st : G.lca_state node_id) (r : G.TreeNode node_id),
+         G.gen_lca_call node_id_eqb node_ltb gs (n0 :: ns) = G.Ok (st, r) /\
+         st = gs /\ id_at root (lcp_list p0 ps) = Some (G.TreeNode_id r).
+Proof. exact @gen_lca_call_lcp. Qed.
+Print Assumptions C17_gen_lca_call_lcp.
+
+Theorem C17_gen_lca_never_orders_nodes :
+  forall (node_id : Type) (node_id_eqb node_ltb : node_id -> node_id -> bool),
+       (forall a b : node_id, node_id_eqb a b = true <-> a = b) ->
+       forall (root : G.TreeNode node_id) (gl : list (N * G.TreeNode node_id))
+         (g0 : N * G.TreeNode node_id),
+       NoDup (ids root) ->
+       G.gen__euler_tour root 0 = G.Ok gl ->
+       (forall d i : nat,
+        i + 2 ^ S d <= length gl ->
+        let a := tbl (leb_of (G.entry_ltb node_id_eqb node_ltb)) gl g0 d i in
+        let b := tbl (leb_of (G.entry_ltb node_id_eqb node_ltb)) gl g0 d (i + 2 ^ d) in
+        forall f : node_id -> node_id -> bool,
+        G.entry_ltb node_id_eqb f b a = G.entry_ltb node_id_eqb node_ltb b a) /\
+       (forall s e : nat,
+        s <= e ->
+        e < length gl ->
+        let d := Nat.log2 (e + 1 - s) in
+        let a := tbl (leb_of (G.entry_ltb node_id_eqb node_ltb)) gl g0 d s in
+        let b := tbl (leb_of (G.entry_ltb node_id_eqb node_ltb)) gl g0 d (e + 1 - 2 ^ d) in
+        forall f : node_id -> node_id -> bool,
+        G.entry_ltb node_id_eqb f b a = G.entry_ltb node_id_eqb node_ltb b a).
+Proof. exact @gen_lca_never_orders_nodes. Qed.
+Print Assumptions C17_gen_lca_never_orders_nodes.
+
+Example C17_gen_lca_example_distinct := ex_tree_distinct.
+Example C17_gen_lca_example_queries := ex_tree_queries.
